@@ -59,6 +59,9 @@ func (rr *NSEC3) Cover(name string) bool {
 
 	nextHash := rr.NextDomain
 
+	// base32hex is case-insensitive (RFC 4648); owner and name hashes are upper case here.
+	nextHash = strings.ToUpper(nextHash)
+
 	// A name whose hash equals the owner hash is matched by this record, never covered.
 	if nameHash == ownerHash {
 		return false
